@@ -44,20 +44,64 @@ pub fn compare_with_binary(text: &str, tag: &str, st: &mut Stats) {
     if std::fs::write(&path, text).is_err() {
         return;
     }
-    let out = std::process::Command::new("bash")
-        .arg("-c")
-        .arg("ulimit -S -t 20; ulimit -H -t 30; exec timeout 600 \"$0\" \"$1\"")
-        .arg(&bin)
-        .arg(&path)
-        .stdin(std::process::Stdio::null())
-        .output();
+    // the same file under three environments: the one the harness runs in, a Dutch locale (decimal comma country), and one
+    // of the others in turn. A program is a function of its text: none of this may show.
+    let h = crate::rng::hash_str(text);
+    let rotating = 2 + (h % (ENVIRONMENTS.len() as u64 - 2)) as usize;
+    for which in [0usize, 1, rotating] {
+        let (ename, vars, clear) = ENVIRONMENTS[which];
+        // (no shell in between: a shell comments on locales that are not installed)
+        let mut cmd = std::process::Command::new("/usr/bin/timeout");
+        if clear {
+            cmd.env_clear();
+        }
+        for (k, v) in vars {
+            cmd.env(k, v);
+        }
+        {
+            use std::os::unix::process::CommandExt;
+            extern "C" {
+                fn setrlimit(resource: i32, rlim: *const [u64; 2]) -> i32;
+            }
+            // CPU time: 20 s soft (SIGXCPU), 30 s hard
+            unsafe {
+                cmd.pre_exec(|| {
+                    let lim: [u64; 2] = [20, 30];
+                    setrlimit(0 /* RLIMIT_CPU */, &lim);
+                    Ok(())
+                });
+            }
+        }
+        let out = cmd.arg("600").arg(&bin).arg(&path).stdin(std::process::Stdio::null()).output();
+        let out = match out {
+            Ok(o) => o,
+            Err(_) => continue,
+        };
+        st.count(&format!("{}:runs", tag));
+        st.count(&format!("binary-environment:{}", ename));
+        let envtag = if which == 0 { tag.to_string() } else { format!("{}:environment-{}", tag, ename) };
+        judge_run(text, &envtag, &o, &want_out, &want_err, &out, st);
+    }
     let _ = std::fs::remove_file(&path);
-    let out = match out {
-        Ok(o) => o,
-        Err(_) => return,
-    };
-    st.count(&format!("{}:runs", tag));
-    st.distinct_hash(crate::rng::hash_str(text));
+    st.distinct_hash(h);
+}
+
+/// (name, variables, start from an empty environment)
+const ENVIRONMENTS: &[(&str, &[(&str, &str)], bool)] = &[
+    ("inherited", &[], false),
+    ("dutch", &[("LC_ALL", "nl_NL.UTF-8"), ("LANG", "nl_NL.UTF-8"), ("LANGUAGE", "nl_NL:nl"), ("LC_NUMERIC", "nl_NL.UTF-8")], false),
+    ("dutch-lang-only", &[("LANG", "nl_NL.UTF-8")], true),
+    ("dutch-numeric-only", &[("LANG", "en_US.UTF-8"), ("LC_NUMERIC", "nl_BE.UTF-8")], true),
+    ("german", &[("LC_ALL", "de_DE.UTF-8"), ("LANG", "de_DE.UTF-8")], false),
+    ("turkish", &[("LC_ALL", "tr_TR.UTF-8"), ("LANG", "tr_TR.UTF-8")], false),
+    ("posix", &[("LC_ALL", "C"), ("LANG", "C"), ("TZ", "Pacific/Kiritimati"), ("TERM", "dumb"), ("NO_COLOR", "1"), ("COLUMNS", "20"), ("LINES", "5")], false),
+    ("empty", &[], true),
+    ("odd-terminal", &[("TERM", "xterm-256color"), ("COLORTERM", "truecolor"), ("CLICOLOR_FORCE", "1"), ("FORCE_COLOR", "3"), ("RUST_BACKTRACE", "0"), ("RUST_LOG", "trace"), ("DEBUG", "1"), ("NEDERLANG_DEBUG", "1"), ("HOME", "/nonexistent"), ("TMPDIR", "/nonexistent"), ("USER", "iemand"), ("TZ", "Europe/Amsterdam")], false),
+];
+
+fn judge_run(text: &str, tag: &str, o: &crate::obs::Obs, want_out: &str, want_err: &Option<String>, out: &std::process::Output, st: &mut Stats) {
+    let want_out = want_out.to_string();
+    let want_err = want_err.clone();
     if out.status.code() == Some(124) {
         st.count("case-inconclusive:binary-watchdog");
         return;
